@@ -214,3 +214,66 @@ def parse_vals(s):
             continue
         out.append(one())
     return out
+
+
+COMPILE_MATRIX = [("c1.c", "gcc", ["-gdwarf-2", "-O0"]), ("c1.c", "gcc", ["-gdwarf-3", "-O1"]), ("c1.c", "gcc", ["-gdwarf-4", "-O2"]),
+                  ("c1.c", "gcc", ["-gdwarf-5", "-O0"]), ("c1.c", "gcc", ["-gdwarf-5", "-O2"]), ("c2.cc", "g++", ["-gdwarf-4", "-O0"]),
+                  ("c2.cc", "g++", ["-gdwarf-5", "-O0"]), ("c2.cc", "g++", ["-gdwarf-5", "-O2"]), ("c3.c", "gcc", ["-gdwarf-3", "-O2"]),
+                  ("c3.c", "gcc", ["-gdwarf-4", "-O2"]), ("c3.c", "gcc", ["-gdwarf-5", "-O2"]), ("c3.c", "gcc", ["-gdwarf-2", "-O2"])]
+
+
+def compiler_objects(workdir, limit=None):
+    """objects compiled now by the installed gcc / g++ from /verif/corpus/src at several DWARF versions and optimisation
+    levels: [(path, label)]; empty when no compiler is there"""
+    import shutil
+    import subprocess
+    out = []
+    for k, (src, cc, flags) in enumerate(COMPILE_MATRIX[:limit]):
+        if shutil.which(cc) is None:
+            continue
+        path = os.path.join(workdir, "cc%d.o" % k)
+        r = subprocess.run([cc] + flags + ["-c", os.path.join(common.VERIF, "corpus", "src", src), "-o", path],
+                           stdout=subprocess.PIPE, stderr=subprocess.PIPE, cwd=common.VERIF)
+        if r.returncode == 0:
+            out.append((path, "%s %s %s" % (cc, " ".join(flags), src)))
+    return out
+
+
+RE_LLVM_DIE = re.compile(r"^(0x[0-9a-f]+):\s+(DW_TAG_\w+|NULL)(?: \[(\d+)\] ([* ]))?(?:\s*\((0x[0-9a-f]+)\))?")
+RE_LLVM_ATTR = re.compile(r"^\s+(DW_AT_\w+) \[(DW_FORM_\w+)\]")
+
+
+def llvm_dies(path):
+    """the DIE list of .debug_info as llvm-dwarfdump decodes it, in the shape of oracle_raw's records; None when the tool is
+    missing or meets a name this DWARF header does not know"""
+    import shutil
+    import subprocess
+    tool = shutil.which("llvm-dwarfdump-14") or shutil.which("llvm-dwarfdump")
+    if tool is None:
+        return None
+    r = subprocess.run([tool, "--debug-info", "-v", path], stdout=subprocess.PIPE, stderr=subprocess.DEVNULL, text=True, errors="replace")
+    dies = []
+    cur = None
+    try:
+        for line in r.stdout.split("\n"):
+            m = RE_LLVM_DIE.match(line)
+            if m:
+                if m.group(2) == "NULL":
+                    cur = None
+                    continue
+                cur = {"offset": int(m.group(1), 16), "tag": forest.DW_TAG[m.group(2)], "has_children": m.group(4) == "*",
+                       "parent": int(m.group(5), 16) if m.group(5) else None, "attrs": [], "children": []}
+                dies.append(cur)
+                continue
+            m = RE_LLVM_ATTR.match(line)
+            if m and cur is not None:
+                cur["attrs"].append((forest.DW_AT[m.group(1)], forest.DW_FORM[m.group(2)]))
+    except KeyError:
+        return None
+    byoff = dict((d["offset"], d) for d in dies)
+    for d in dies:
+        if d["parent"] is not None and d["parent"] in byoff:
+            byoff[d["parent"]]["children"].append(d["offset"])
+    return ["[%d,%d,%s,%s,[%s],[%s]]" % (d["offset"], d["tag"], "[%d]" % d["parent"] if d["parent"] is not None else "[]",
+                                       "[1]" if d["has_children"] else "[]", ",".join(str(c) for c in d["children"]),
+                                       ",".join("[%d,%d]" % a for a in d["attrs"])) for d in dies]
